@@ -2,6 +2,7 @@ package main
 
 import (
 	"bytes"
+	"os"
 	"compress/flate"
 	"encoding/gob"
 	"fmt"
@@ -36,6 +37,8 @@ func worldsFor(kind string) []world {
 		return []world{{Name: "publisher", Publisher: true, GenesisCoins: normalCoins, MaxBlockSize: 32768}}
 	case "both":
 		return append(worldsFor("follower"), worldsFor("publisher")...)
+	case "publisher-small":
+		return []world{{Name: "publisher-small", Publisher: true, GenesisCoins: normalCoins, MaxBlockSize: 1024, SmallTxn: true}}
 	case "extreme":
 		return []world{{Name: "follower-extreme", Publisher: false, GenesisCoins: ^uint64(0) - 1, MaxBlockSize: 32768}}
 	}
@@ -45,6 +48,11 @@ func worldsFor(kind string) []world {
 // seedOps is the scripted prefix of the "distributed" root: the genesis output is split over several owners so that
 // the search also starts from a state with many spendable outputs (non-initial root).
 func seedOps(w world) []op {
+	if w.SmallTxn {
+		// six spendable outputs, so that five non-conflicting ~220-byte transactions can be pending against the 1 KiB block limit
+		return []op{{"inject-user", "pay-G-A"}, {"publish", "1h"}, {"inject-user", "pay-G-A"}, {"inject-user", "pay-A-B"}, {"publish", "1h"},
+			{"inject-user", "pay-G-A"}, {"inject-user", "pay-B-A"}, {"publish", "1h"}}
+	}
 	if w.Publisher {
 		return []op{{"inject-user", "pay-G-A"}, {"publish", "1h"}, {"inject-user", "pay-A-B"}, {"publish", "1h"}}
 	}
@@ -124,6 +132,9 @@ func runExplore(r *engine.Run, prop string, cfg exploreCfg, rule string) {
 					if l.n.M == nil {
 						return nil
 					}
+					if w.SmallTxn {
+						return l.n.ops("C05small")
+					}
 					return l.n.ops(prop)
 				},
 				Apply: func(l *live, o op, check bool) string {
@@ -180,7 +191,14 @@ func runExplore(r *engine.Run, prop string, cfg exploreCfg, rule string) {
 			}}
 			// the self-loop shortcut of the BFS appends to hist of a reused instance; histories in failure messages therefore
 			// show rejected operations too (they did not change the state)
+			if w.SmallTxn {
+				os.Setenv("USER_MAX_TXN_SIZE", "1024")
+			} else {
+				os.Unsetenv("USER_MAX_TXN_SIZE")
+			}
+			// (the master process itself runs with the default limits: it only deduplicates, the workers do the real work)
 			res := engine.BFSMP(sp)
+			os.Unsetenv("USER_MAX_TXN_SIZE")
 			for k, v := range res.Aux {
 				allAux[k] += v
 			}
